@@ -57,8 +57,8 @@ type Step struct {
 	Name string `json:"name,omitempty"`
 }
 
-var editOps = []string{"addGlobal", "addFunc", "addBlock", "appendInst", "appendInst", "appendInst", "insertInst", "insertInst", "removeInst", "replaceInst", "replaceInst", "bulkAppend", "replaceTerm", "rename", "renameGlobal", "renameBlock", "addMetadata", "setAddrSpace"}
-var observeOps = []string{"obsString", "obsString", "obsWriteTo", "obsFailingWrite", "obsPanickingPrint", "obsFunc", "obsBlock", "obsInst", "obsType", "obsIdent", "obsOperands", "obsSuccs"}
+var editOps = []string{"addGlobal", "addFunc", "addBlock", "appendInst", "appendInst", "appendInst", "insertInst", "insertInst", "removeInst", "replaceInst", "replaceInst", "bulkAppend", "replaceTerm", "rename", "renameGlobal", "renameBlock", "addMetadata", "setAddrSpace", "takeBlockAddress"}
+var observeOps = []string{"obsString", "obsString", "obsWriteTo", "obsFailingWrite", "obsPanickingPrint", "obsFunc", "obsBlock", "obsInst", "obsType", "obsIdent", "obsOperands", "obsSuccs", "obsInitializer"}
 
 // world is the state built by replaying a history.
 type world struct {
@@ -364,6 +364,22 @@ func (w *world) apply(s Step, observe bool) (printed string, isPrint bool) {
 				as[pick(len(as), s.B)].AddrSpace = types.AddrSpace(1 + s.C%4)
 			}
 		}
+	case "takeBlockAddress":
+		// a fresh function of two blocks, in address space 0 or (assigned after construction, the only way) 1,
+		// and a global variable initialised with the address of its second block: the type of the constant
+		// follows the address space of its function
+		fn := m.NewFunc("", types.Void)
+		entry, second := fn.NewBlock(""), fn.NewBlock("")
+		if s.B%2 == 0 {
+			w.nameN++
+			second.SetName(fmt.Sprintf("t%d", w.nameN))
+		}
+		entry.NewBr(second)
+		second.NewRet(nil)
+		if s.C%2 == 1 {
+			fn.AddrSpace = types.AddrSpace(1 + s.D%3)
+		}
+		m.NewGlobalDef("", constant.NewBlockAddress(fn, second))
 	case "replaceTerm":
 		if f := w.fn(s.A); f != nil {
 			b := f.Blocks[pick(len(f.Blocks), s.B)]
@@ -458,6 +474,20 @@ func (w *world) apply(s Step, observe bool) (printed string, isPrint bool) {
 			lx.Guard(func() { _ = m.String() })
 			lx.Guard(func() { _ = f.LLString() })
 			b.Term = term
+		}
+	case "obsInitializer":
+		// type, identifier and string of the initialiser of a global variable
+		var inits []constant.Constant
+		for _, g := range m.Globals {
+			if g.Init != nil {
+				inits = append(inits, g.Init)
+			}
+		}
+		if len(inits) > 0 {
+			c := inits[pick(len(inits), s.A)]
+			_ = c.Type()
+			_ = c.Ident()
+			_ = c.String()
 		}
 	case "obsFunc":
 		if len(m.Funcs) > 0 {
@@ -632,7 +662,7 @@ func shiftsNumbering(steps []Step) bool {
 
 func TestHistories(t *testing.T) {
 	const test = "Histories"
-	hx.Rule(test, "histories of 5..62 steps over the public API drawn by rapid and replayed on fresh modules: add global/function (named or unnamed, named or unnamed parameters), add block, append, bulk-append (12..45 at once), insert and replace-in-place instructions (add, mul, sub, icmp, alloca, load, store, call of void and non-void functions, select) with operands from the values that exist, remove unused instructions, replace terminators (ret, br, condbr, unreachable), rename values, blocks and globals (to a name or to unnamed); observers (String, WriteTo, WriteTo into a writer that fails after k bytes, a recovered String() of a state that cannot be printed — a block whose terminator is taken away and put back —, Func/Block/instruction LLString, Type, Ident, Operands, Succs) at about a third of the positions. Every state is printable (blocks are created with a terminator). Oracle: replay with observers == replay without (final String()), String() twice identical, every String() observed mid-history equals printing a fresh observer-free replay of the same prefix, and observers never introduce a panic. Non-trivial = an observer followed by an edit that shifts numbering")
+	hx.Rule(test, "histories of 5..62 steps over the public API drawn by rapid and replayed on fresh modules: add global/function (named or unnamed, named or unnamed parameters), add block, append, bulk-append (12..45 at once), insert and replace-in-place instructions (add, mul, sub, icmp, alloca, load, store, call of void and non-void functions, select) with operands from the values that exist, remove unused instructions, replace terminators (ret, br, condbr, unreachable), rename values, blocks and globals (to a name or to unnamed), take the address of a block of a fresh function in address space 0 or 1 as the initialiser of a global; observers (String, WriteTo, WriteTo into a writer that fails after k bytes, a recovered String() of a state that cannot be printed — a block whose terminator is taken away and put back —, Func/Block/instruction LLString, Type, Ident, Operands, Succs, Type/Ident/String of a global's initialiser) at about a third of the positions. Every state is printable (blocks are created with a terminator). Oracle: replay with observers == replay without (final String()), String() twice identical, every String() observed mid-history equals printing a fresh observer-free replay of the same prefix, and observers never introduce a panic. Non-trivial = an observer followed by an edit that shifts numbering")
 	hx.Check(t, test, hx.N(1500, 40000), func(rt *rapid.T) {
 		steps := genHistory(rt)
 		hx.Eval(1)
